@@ -10,7 +10,7 @@ Three units, each with the part of the statement it implements:
       carried the expected toggle (= new data), DATA0 on a clear-halt strobe naming (this number, OUT).
  REQ  StandardRequestHandler CLEAR_FEATURE state (request/standard.py:171).  Ghosts `cf` (a CLEAR_FEATURE request is open)
       and `zs` (its status stage was answered with a ZLP, i.e. it was a CLEAR_FEATURE(ENDPOINT_HALT) to an endpoint
-      recipient).  Ensure: the clear-halt strobe is raised exactly when the host ACKs that ZLP, with number/direction =
+      recipient, and no other token was seen since).  Ensure: the clear-halt strobe is raised exactly when the host ACKs that ZLP, with number/direction =
       wIndex[3:0]/wIndex[7].
 
 The status endpoint's toggle (USBSignalInEndpoint) is covered by C17 (`toggle_advances_exactly_on_ack`); that endpoint
@@ -33,15 +33,14 @@ ASSUMPTIONS = [
     "C14/IN: the clear-halt strobe arrives between transactions of the endpoint (not while it transmits or waits for an ACK) and not in "
     "the same cycle as a response slot; discard=0; ACK and token strobes exclusive; transmitter not ready in a packet's first cycle (as C11)",
     "C14/OUT: is_out and is_ping token flags are exclusive (C01)",
-    "C14/REQ: SETUP fields change only together with `received`; a SETUP is received only while the handler is idle (abandoned "
-    "control transfers: C07/C10); ACK strobe and status-stage response slot do not coincide",
+    "C14/REQ: SETUP fields change only together with `received` (USBSetupDecoder)",
 ]
-KNOWN_DEFECTS = """On the unchanged tree two obligations groups are refuted with replayed witnesses (proposed_fixes/C14_toggles.diff):
+KNOWN_DEFECTS = """Refuted with a replayed witness unless proposed_fixes/C14_toggles.diff is applied:
  * USBInTransferManager: a reset_sequence strobe in the cycle in which WAIT_FOR_DATA hands a completed packet to WAIT_TO_SEND
    is overridden by that transition's PID toggle (bit 0 is assigned twice, the FSM's assignment wins): the next packet is
    DATA1 although CLEAR_FEATURE(ENDPOINT_HALT) completed.
- * StandardRequestHandler: in CLEAR_FEATURE any ACK raises clear_endpoint_halt — before the status stage, and after a STALLed
-   CLEAR_FEATURE of another feature/recipient (the state is only left on an ACK)."""
+ (StandardRequestHandler: the earlier finding "any ACK in CLEAR_FEATURE raises clear_endpoint_halt" has been fixed in /repo:
+  the strobe is now gated by a status-ZLP-sent flag; this contract proves the fixed behaviour.)"""
 
 IN_ENSURES = {"every_attempt_carries_expected_pid", "pid_stable_during_packet", "in_token_is_answered",
               "retry_of_zlp_is_zlp", "data_follows_accepted_token", "packet_stream_framing"}
@@ -68,6 +67,10 @@ def make_in(kind, MAX):
             foreign = z3.And(bits(ch, 0) == 1, z3.Not(reset))
             c.ensure("foreign_clear_halt_changes_nothing", z3.Implies(z3.And(foreign, z3.Not(acked)), n(exp_pid) == exp_pid),
                      clause="... and no other: a clear-halt naming another endpoint number or the OUT direction leaves this toggle unchanged")
+            eff = z3.If(g["pend"], bits(V.pid, 0), ~bits(V.pid, 0))     # the toggle the next new packet will carry, as the register encodes it
+            c.ensure("foreign_clear_halt_leaves_toggle_register",
+                     z3.Implies(foreign, z3.And(n(eff) == z3.If(acked, ~eff, eff), bits(n(V.pid), 1) == 0)),
+                     clause="... and no other: with a clear-halt naming another endpoint/direction the PID register still only advances on an ACK")
             c.cover("foreign_clear_halt_while_data1", z3.And(foreign, exp_pid == 1, bits(ch, 5, 2) == 2))
             c.cover("foreign_then_data1_packet", z3.And(g["sending"], V.pid == 1))
         c.cover("reset_while_data1_expected", z3.And(reset, exp_pid == 1))
@@ -154,6 +157,7 @@ def make_req(avoid_blockram):
         ports = {"s_" + f: getattr(s, f) for f in ("recipient", "type", "is_in_request", "request", "value", "index", "length", "received")}
         ports.update({"i_status_requested": itf.status_requested, "i_data_requested": itf.data_requested,
                       "i_ack": itf.handshakes_in.ack, "i_tx_ready": itf.tx.ready, "i_active_config": itf.active_config,
+                      "i_tok_new": itf.tokenizer.new_token,
                       "o_clear_halt": itf.clear_endpoint_halt.as_value(), "o_stall": itf.handshakes_out.stall,
                       "o_tx_valid": itf.tx.valid, "o_tx_first": itf.tx.first, "o_tx_last": itf.tx.last})
         ts = c.unit(d, ports)
@@ -166,24 +170,20 @@ def make_req(avoid_blockram):
         fields = z3.Concat(I["s_recipient"], I["s_type"], I["s_request"], I["s_value"], I["s_index"])
 
         # ---- observer ghosts
-        cf = c.ghost("cf", 1, init=0)            # a CLEAR_FEATURE request has been received and is neither completed nor stalled
-        zs = c.ghost("zs", 1, init=0)            # ... and its status stage has been answered with a ZLP (so it is ENDPOINT_HALT -> endpoint)
+        cf = c.ghost("cf", 1, init=0)            # the most recent SETUP was a standard CLEAR_FEATURE and has not completed
+        zs = c.ghost("zs", 1, init=0)            # ... its status stage has been answered with a ZLP (so it names ENDPOINT_HALT of an
+                                                 #     endpoint recipient) and no other token has been seen since
         prev = c.ghost("prev_fields", fields.size(), init=None)
         c.set_next(prev, fields)
+        new_token = I["i_tok_new"] == 1
         complete = z3.And(cf == 1, zs == 1, ack)                         # the host ACKs the status-stage ZLP: the request completes
-        stalled = z3.And(cf == 1, status, z3.Not(names_halt))
         zlp = z3.And(cf == 1, status, names_halt)
-        c.set_next(cf, z3.If(received, z3.If(is_cf, bvc(1, 1), bvc(0, 1)), z3.If(z3.Or(complete, stalled), bvc(0, 1), cf)))
-        c.set_next(zs, z3.If(z3.Or(received, complete, stalled), bvc(0, 1), z3.If(zlp, bvc(1, 1), zs)))
+        c.set_next(cf, z3.If(received, z3.If(is_cf, bvc(1, 1), bvc(0, 1)), z3.If(complete, bvc(0, 1), cf)))
+        c.set_next(zs, z3.If(z3.Or(received, complete, new_token), bvc(0, 1), z3.If(zlp, bvc(1, 1), zs)))
 
         # ---- environment
         c.require("setup_fields_change_only_with_received", z3.Implies(z3.Not(received), fields == prev),
                   why="USBSetupDecoder registers all SETUP fields in the same clock edge that raises `received` (request.py READ_DATA)")
-        c.require("setup_received_only_when_handler_idle", z3.Implies(received, fsm.is_("IDLE")),
-                  why="abandoned/overlapping control transfers (a SETUP arriving while the handler is still busy with the previous "
-                      "request) are the subject of C07/C10, not of this property")
-        c.require("ack_and_response_slot_exclusive", z3.Not(z3.And(ack, status)),
-                  why="an ACK strobe (cycle after a handshake packet) and a response slot (inter-packet delay after a token/data packet) cannot coincide")
 
         # ---- abstraction
         c.inv("fsm_legal", fsm.legal())
@@ -212,7 +212,9 @@ def make_req(avoid_blockram):
                                                          z3.And(O["o_stall"] == 1, O["o_tx_valid"] == 0))),
                  clause="the status stage of CLEAR_FEATURE(ENDPOINT_HALT) is answered with a ZLP, any other CLEAR_FEATURE is STALLed")
         c.cover("completes", complete)
-        c.cover("stalled_then_ack", z3.And(ack, cf == 0, zs == 0, is_cf, z3.Not(names_halt)))
+        c.cover("ack_after_stalled_clear_feature", z3.And(ack, cf == 1, zs == 0, z3.Not(names_halt), ts.of(itf.handshakes_out.stall) == 0))
+        c.cover("token_between_zlp_and_ack", z3.And(new_token, zs == 1))
+        c.cover("new_setup_abandons_open_request", z3.And(received, cf == 1, z3.Not(is_cf)))
         c.cover("ack_before_status_stage", z3.And(ack, cf == 1, zs == 0))
         c.cover("completes_in_direction", z3.And(complete, bits(I["s_index"], 7) == 1, bits(I["s_index"], 3, 0) == 5))
         c.cover_depth = 12
